@@ -30,6 +30,17 @@ def main():
                 C.log("generator %s failed:\n%s" % (tool, (out + e)[-2000:]))
             else:
                 C.write_if_changed(os.path.join(C.COQ, "gen", outfile), out)
+    g09, e9 = C.go_build('c09gen')
+    if g09:
+        rc, out, e = C.run([g09, 'coq'], env=dict(os.environ, VERIF_REPO=C.REPO), timeout=300)
+        if rc == 0 and 'Definition gen_sites' in out:
+            C.write_if_changed(os.path.join(C.COQ, 'gen', 'GenLockSites.v'), out)
+        else:
+            ok = False
+            C.log('c09gen failed: ' + (out + e)[-1500:])
+    else:
+        ok = False
+        C.log('go build c09gen failed: ' + e9[-1500:])
     try:
         from checks import c16 as _c16
         ok16, tlog = _c16.translate_resolve(None)
